@@ -325,7 +325,7 @@ theorem indexProd_filter : ∀ (ps : List (Nat → Bool)) (rs : List (List Nat))
         apply List.filter_congr
         intro t _
         simp [selAll, hp]
-      · simp only [hp, if_false]
+      · simp only [hp]
         have : List.filter (selAll (p :: ps)) (List.map (fun x => i :: x) (indexProd rs)) = [] := by
           simp only [List.filter_eq_nil_iff, List.mem_map]
           rintro _ ⟨t, _, rfl⟩
